@@ -55,7 +55,8 @@ impl HighwayHash for PortableHash {
         }
 
         let (buffered, rest) = cursor.split_at_mut(PACKET_SIZE);
-        buffered.copy_from_slice(&self.buffer.buf);
+        let pending = self.buffer.as_slice();
+        buffered[..pending.len()].copy_from_slice(pending);
         rest.copy_from_slice(&(self.buffer.len() as u32).to_le_bytes());
         result
     }
